@@ -134,6 +134,7 @@ class DrapeModel(GridObject):
                 dtype=[("I", "<i4"), ("K", "<i4"), ("Bottom elevation", "<f8")],
             )
         )
+        self._centroids = None
         self.workspace.update_attribute(self, "layers")
 
     @property
@@ -189,4 +190,5 @@ class DrapeModel(GridObject):
                 },
             )
         )
+        self._centroids = None
         self.workspace.update_attribute(self, "prisms")
